@@ -385,6 +385,9 @@ impl Property for C12 {
         ]
         .boxed()
     }
+    fn concurrent() -> bool {
+        true
+    }
     fn check(spec: &Spec, _env: &mut Env) -> Outcome {
         let mut o = Outcome::new();
         match spec {
